@@ -57,3 +57,12 @@ def _computer(eng, st, args, kwargs):
 def _format_exc(eng, st, args, kwargs):
     eng.assumptions_used.add('A-LOG')
     yield st, V(eng.fresh_term('tb', z3.StringSort(), st), STR)
+
+
+@EX.external('int.from_bytes')
+def _from_bytes(eng, st, args, kwargs):
+    b = args[0]
+    order = args[1] if len(args) > 1 else kwargs.get('byteorder')
+    if order != 'big' or kwargs.get('signed', False) is not False:
+        raise Outside("int.from_bytes variant")
+    yield st, eng.bytes_to_int(eng.term(b, BYTES, st), st)
